@@ -27,6 +27,11 @@ import (
 // transaction together with the inode, bitmap and indirect blocks it dirties.
 const maxWrite uint64 = (jrnl.LogBlocks - 32) * 4096
 
+// The largest READ we answer in one reply: as much as the largest WRITE.
+// A client that asks for more gets this much and asks again.  (Well-behaved
+// clients stay below the advertised rtmax anyway.)
+const maxRead uint64 = maxWrite
+
 func errRet(op *fstxn.FsTxn, status *nfstypes.Nfsstat3, err nfstypes.Nfsstat3) {
 	*status = err
 	util.DPrintf(2, "errRet %v", err)
@@ -270,8 +275,12 @@ func (nfs *Nfs) NFSPROC3_READ(args nfstypes.READ3args) nfstypes.READ3res {
 	defer nfs.recordOp(nfstypes.NFSPROC3_READ, time.Now())
 	var reply nfstypes.READ3res
 	util.DPrintf(1, "NFS Read %v %d %d\n", args.File, args.Offset, args.Count)
+	var count = uint64(args.Count)
+	if count > maxRead {
+		count = maxRead
+	}
 	op, data, eof, err := nfs.doRead(args.File, nfstypes.NF3REG,
-		uint64(args.Offset), uint64(args.Count))
+		uint64(args.Offset), count)
 	if err != nfstypes.NFS3_OK {
 		errRet(op, &reply.Status, err)
 		return reply
